@@ -331,6 +331,36 @@ func c14AllTypes(c *Ctx) {
 		}
 		check("random", cols, rows)
 	}
+	// LowCardinality dictionaries on both sides of every key width the quick tier can afford (8 / 16 bit keys; 32 bit in
+	// thorough), plain and as array elements, alone and after another column
+	lcd := []int{3, 254, 255, 256, 300, 1000}
+	if c.Thorough {
+		lcd = append(lcd, 65534, 65535, 65536, 70000)
+	}
+	for _, d := range lcd {
+		for _, ts := range []string{"LowCardinality(String)", "LowCardinality(UInt32)", "Array(LowCardinality(String))", "LowCardinality(Nullable(String))"} {
+			t, err := parseCH(ts)
+			if err != nil {
+				continue
+			}
+			t0, _ := parseCH("UInt32")
+			rows := d + 5
+			k := 0
+			cols, err := buildCols(r, 2, rows, genOpts{lcDistinct: d}, func() *TNode {
+				k++
+				if k == 1 {
+					return t0
+				}
+				return t
+			})
+			if err != nil {
+				continue
+			}
+			check(fmt.Sprintf("lc-distinct-%d", d), cols, rows)
+			// the same columns encoded a second time (key scratch of the first encode is still there)
+			check(fmt.Sprintf("lc-distinct-%d-again", d), cols, rows)
+		}
+	}
 	// strings around and beyond page size, long ones followed by short ones
 	for _, lens := range [][]int{{5000, 1}, {4096, 4096, 3}, {4095, 4096, 4097}, {1, 70000, 0, 200}, {8192, 127, 128, 16384}} {
 		for _, wrap := range []string{"String", "Array(String)", "Nullable(String)"} {
